@@ -186,6 +186,23 @@ impl Grammar {
     pub fn has_comment(&self) -> bool {
         self.has("COMMENT")
     }
+    /// rule `name` reaches a stack operation (directly or through rule references)
+    pub fn rule_reaches_stack(&self, name: &str) -> bool {
+        let mut seen = std::collections::BTreeSet::new();
+        let mut todo = vec![name.to_string()];
+        while let Some(n) = todo.pop() {
+            if !seen.insert(n.clone()) {
+                continue;
+            }
+            if let Some(r) = self.rule(&n) {
+                if r.expr.any(&|e| e.is_stack_op()) {
+                    return true;
+                }
+                r.expr.idents(&mut todo);
+            }
+        }
+        false
+    }
     pub fn uses_stack(&self) -> bool {
         self.raw.iter().any(|r| r.expr.any(&|e| e.is_stack_op()))
     }
